@@ -24,7 +24,7 @@ ASSUMPTIONS = ["prune/filter predicates are functions of the yielded node's iden
 
 def gen_cases(rng, tier):
     cases = []
-    n_uni = 10 if tier == "quick" else 300
+    n_uni = 20 if tier == "quick" else 300
     per = 8 if tier == "quick" else 30
     for _ in range(n_uni):
         u = gen_universe(rng, force_falsy=rng.random() < 0.4)
